@@ -1011,6 +1011,17 @@ func (x *Exec) contractCall(st *State, fi *FuncInfo, args []*Term, call *ast.Cal
 	}
 	// results
 	results := x.unknownResults(st, sig, fi.Key)
+	if fi.Flag("functional") && len(results) == 1 && !eff.Top {
+		// the result is the function's value on these arguments: the same term a
+		// specification gets when it mentions the function
+		var fargs []*Term
+		for _, h := range sortedKeys(eff.Reads) {
+			fargs = append(fargs, x.heap(fr.entry, h, eff.Reads[h]))
+		}
+		fargs = append(fargs, args...)
+		app := x.app("sf!"+sanitize(fi.Name()), x.p.Reg.sortOf(sig.Results().At(0).Type()), fargs...)
+		st.assume(Eq(results[0], app))
+	}
 	if len(fi.Results) == len(results) {
 		for i, rv := range fi.Results {
 			st.vars[rv] = results[i]
@@ -1152,7 +1163,7 @@ func (x *Exec) evalLocs(st *State, exprs []ast.Expr, lenient bool) ([]modLoc, []
 
 func (x *Exec) pureCall(st *State, fi *FuncInfo, args []*Term, call *ast.CallExpr) []*Term {
 	sig := fi.sig()
-	if len(fi.LoopList) > 0 && !fi.Flag("opaque") {
+	if len(fi.LoopList) > 0 && !fi.Flag("opaque") && !fi.Flag("functional") {
 		x.unsupported(call, "specification calls %s which has loops", fi.Name())
 	}
 	var recv *Term
@@ -1161,7 +1172,7 @@ func (x *Exec) pureCall(st *State, fi *FuncInfo, args []*Term, call *ast.CallExp
 		recv = args[0]
 		rest = args[1:]
 	}
-	if !x.p.isRecursive(fi) && !fi.Flag("opaque") {
+	if !x.p.isRecursive(fi) && !fi.Flag("opaque") && !fi.Flag("functional") {
 		return x.inlineCall(st, fi, recv, rest, call)
 	}
 	eff := x.p.effects(fi)
@@ -1178,7 +1189,7 @@ func (x *Exec) pureCall(st *State, fi *FuncInfo, args []*Term, call *ast.CallExp
 	}
 	name := "sf!" + sanitize(fi.Name())
 	app := x.app(name, x.p.Reg.sortOf(sig.Results().At(0).Type()), fargs...)
-	if fi.Flag("opaque") {
+	if fi.Flag("opaque") || fi.Flag("functional") {
 		return []*Term{app}
 	}
 	limit := 1
